@@ -12,7 +12,7 @@ from .rules_struct import (COLLECT_INTO_CORE, FIND_FAMILY, ORDERED_COLLECTS, ear
                            merge_functions, BAG_HEADS, is_own_prim)
 from .rules_flow import P, norm_bool, runner_reduce_sites, task_chunk_param, PARAMS
 from . import lin
-from .opa import FN_CALLS
+from .opa import FN_CALLS, PC as OPA_PC
 
 
 def items(ctx):
@@ -2208,6 +2208,77 @@ def c05_visit(ctx):
     return out
 
 
+@rule('C02-EXHAUST', 'a find task answers "no match" only after it has seen the source run dry')
+def c02_exhaust(ctx):
+    """C05-VISIT demands of the must-visit tasks that every return has observed exhaustion.  A find task may return early - with a
+    match.  Every return that can carry `None` must still be preceded by a `None` pull (or be the value of a search over the whole
+    stream, which is `None` only when the stream is dry): otherwise unsearched input remains and a match in it is missed."""
+    out = RuleOut('C02-EXHAUST')
+    F = ctx.facts
+    I = items(ctx)
+    n = 0
+    for tn in sorted(early_exit_tasks(ctx)):
+        b = F.bodies[tn]
+        cfg = ctx.cfg(b)
+        r = ctx.run(tn)
+        esc, cut, drains = exhaustion_escapes(ctx, b)
+        n += 1
+        key = 'C02-EXHAUST/' + key_of(b)
+        bad = []
+        if esc:
+            reach = cfg.reach(0, avoid=drains, cut_edges=cut)
+            # what can be returned on the paths that never saw the source run dry: the analysis confined to the blocks those paths visit
+            # (cleanup blocks shared by several `return`s would otherwise merge the `None` of the dry arm into the others)
+            r = ctx.opa.run(tn, seeds={'key': ('not-exhausted', tn)}, avoid=set(b.blocks) - set(reach))
+            # ... and each returned value judged where it is put into the return place, with the guards of that very block
+            edges = []
+            for bb_ in sorted(reach):
+                blk = b.blocks[bb_]
+                if blk.get('cleanup') or bb_ not in r.exit_env:
+                    continue
+                if any(st.get('lhs') and st['lhs'].get('l') == 0 for st in blk.get('stmts', [])):
+                    env = r.exit_env[bb_]
+                    edges.append((bb_, ctx.opa.collapse(env.get(0), env), env.get(OPA_PC, frozenset())))
+                tm = blk['term']
+                if tm.get('t') == 'call' and (tm.get('dest') or {}).get('l') == 0 and tm.get('target') in r.state:
+                    env = r.state[tm['target']]
+                    edges.append((bb_, ctx.opa.collapse(env.get(0), env), env.get(OPA_PC, frozenset())))
+            if not edges:
+                edges = [(pred, val, pc) for (pred, rb), (val, pc) in r.ret_edges.items() if pred in reach] or [(bb_, val, pc) for (bb_, val, pc) in r.returns if bb_ in reach]
+            for pred, val, pc in edges:
+                for alt in alternatives(val):
+                    if alt is None:
+                        continue
+                    # returned on a path on which this very value was found to be Some (`if result.is_some() { .. return result }`)
+                    known_some = False
+                    for pt, f in pc:
+                        if pt == ('discr', alt) and f == ('eq', 1):
+                            known_some = True
+                        if pt[0] == 'call' and tcallee(pt) == 'std::option::Option::is_some' and pt[2] and pt[2][0] in (alt, ('ref', alt)) and lin.fact_truth(f) is True:
+                            known_some = True
+                        if pt[0] == 'call' and tcallee(pt) == 'std::option::Option::is_none' and pt[2] and pt[2][0] in (alt, ('ref', alt)) and lin.fact_truth(f) is False:
+                            known_some = True
+                    if known_some:
+                        continue
+                    if alt[0] == 'variant' and alt[1] == 'std::option::Option' and alt[2] == 1:
+                        continue        # a match
+                    x = I.normalize(alt)
+                    while x is not None and x[0] == 'call' and tcallee(x) in ('std::option::Option::map', 'std::option::Option::inspect') and x[2]:
+                        x = x[2][0]
+                    if x is not None and x[0] == 'call' and x[2] and (is_iter_method(x, ('find', 'find_map', 'position', 'next')) or is_next_call(x)):
+                        names, root = I.spine(x[2][0])
+                        if source_stream_root(I, root) and not [y for y in names if y not in ITER_ELEMENT_FAITHFUL]:
+                            continue    # a search over the whole stream: None only when the stream is dry
+                    if x is not None and x[0] == 'phi':
+                        continue        # a carried search result: its alternatives are judged where they are produced
+                    bad.append((pred, alt))
+        out.inst(key, not bad, '%d exhaustion edge(s)' % len(cut), sample={'task': key_of(b), 'exhaustion_edges': len(cut)})
+        for (pred, alt) in bad[:1]:
+            out.fail(key, '%s can return %s without having seen the source run dry (no `None` pull on that path): input that was never searched remains, and a match in it is missed' % (key_of(b), t_str(alt)[:60]), b.where(b.blocks[pred]['term'].get('line')))
+    out.floor('find_tasks', n, 1 if not ctx.fixture else 0)
+    return out
+
+
 WHOLE_VIEWS = {'iter', 'into_iter', 'as_slice', 'as_mut_slice', 'deref', 'as_ref', 'borrow', 'into_con_iter', 'con_iter', 'into_con_iter_x',
                'clone', 'to_vec', 'into_vec', 'into_boxed_slice', 'from', 'into', 'collect', 'make_contiguous', 'cloned', 'copied', 'from_iter'}
 
@@ -3008,6 +3079,7 @@ def c01_noshuffle(ctx):
         if b.d.get('impl_trait') == COLLECT_INTO_CORE:
             hosts.add(b.name)
     n = 0
+    trs_ = set(S.transformations) | set(getattr(S, 'inherent_transformations', ()) or ())
     for hn in sorted(hosts):
         hb = F.bodies.get(hn)
         if hb is None:
@@ -3027,10 +3099,16 @@ def c01_noshuffle(ctx):
                     bad.append((t, p.split('::')[-2] + '::' + m if '::' in p else m))
                 elif m == 'insert' and p.startswith(('std::vec::', 'alloc::vec::')):
                     bad.append((t, 'Vec::insert'))
+            if hn in trs_:
+                # a transformation that materialises its input must do so in order: the positions in the intermediate vector are what the
+                # following stages take for the input order
+                for bb, t in b.calls():
+                    if method(t) == 'collect_x' and not decl(t).startswith(ITER):
+                        bad.append((t, 'Par::collect_x'))
             key = 'C01-NOSHUFFLE/' + key_of(b)
             out.inst(key, not bad, '%d calls' % len(list(b.calls())), nontrivial=False)
             for (t, what) in bad[:2]:
-                out.fail(key + '/' + what.split('::')[-1], '%s calls `%s`: the API layer must hand collections and results on as they are - the order or number of elements a kernel produced (or will consume) changes here' % (key_of(b), what), b.where(t.get('line')))
+                out.fail(key + '/' + what.split('::')[-1], '%s calls `%s`: the API layer must hand collections and results on as they are - the order or number of elements a kernel produced (or will consume) changes here%s' % (key_of(b), what, ' (collect_x returns the elements in an order that depends on the schedule)' if what == 'Par::collect_x' else ''), b.where(t.get('line')))
     out.floor('api_bodies', n, 60 if not ctx.fixture else 0)
     return out
 
